@@ -12,6 +12,7 @@ import (
 	"pgregory.net/rapid"
 
 	"perun.network/go-perun/channel"
+	"perun.network/go-perun/client"
 	"perun.network/go-perun/wire"
 	perunser "perun.network/go-perun/wire/perunio/serializer"
 	"perun.network/go-perun/wire/protobuf"
@@ -51,6 +52,13 @@ type Case struct {
 	Order      []int       `json:"order"`
 	Concurrent bool        `json:"concurrent"`
 	Secondary  [2]bool     `json:"secondary"`
+	// Rush (dispute path only): after the program party RushBy makes one more
+	// payment and settles the moment its Update returns, while the accepting
+	// party is still inside its acceptance (the return of its Publish call is
+	// held for RushHold ms): the registration races with the acceptance.
+	Rush     bool `json:"rush,omitempty"`
+	RushBy   int  `json:"rushby,omitempty"`
+	RushHold int  `json:"rushhold,omitempty"`
 }
 
 func drawCase(t *rapid.T) Case {
@@ -107,6 +115,12 @@ func drawCase(t *rapid.T) Case {
 		c.Order, c.Concurrent = []int{0, 1}, true
 	}
 	c.Secondary = [2]bool{rapid.Bool().Draw(t, "sec0"), rapid.Bool().Draw(t, "sec1")}
+	if rapid.IntRange(0, 3).Draw(t, "rush") == 0 {
+		c.Rush, c.FinalLast = true, false
+		c.RushBy = rapid.IntRange(0, 1).Draw(t, "rushby")
+		c.RushHold = []int{2, 5, 10, 25}[rapid.IntRange(0, 3).Draw(t, "rushhold")]
+		c.Order, c.Concurrent = []int{c.RushBy, c.RushBy ^ 1}, false
+	}
 	return c
 }
 
@@ -335,6 +349,37 @@ func runCase(c Case) *h.Outcome {
 	if !pr.Env.Quiesce(10*time.Millisecond, sim.HangLimit) {
 		return fail("harness", "world did not become quiet before settlement")
 	}
+	rush := c.Rush && !subOpenAtEnd && !c.FinalLast
+	var rushRes [2]sim.SettleResult
+	var rushBefore [2][]*big.Int
+	if rush {
+		o.Class("rush:settle-during-peer-acceptance")
+		for i := 0; i < 2; i++ {
+			for _, aid := range assets {
+				rushBefore[i] = append(rushBefore[i], L.Balance(pr.P[i].Acc.Address(), aid))
+			}
+		}
+		x := c.RushBy
+		ch := pr.Ch[x]
+		fromPeer := sim.FromParty(pr.P[x^1])
+		next := ch.State().Version + 1
+		pr.Env.Bus.TapAfter(func(e *wire.Envelope) {
+			if m, ok := e.Msg.(*client.ChannelUpdateAccMsg); ok && fromPeer(e) && m.ChannelID == ledgerID && m.Version == next {
+				time.Sleep(time.Duration(c.RushHold) * time.Millisecond)
+			}
+		})
+		amt := big.NewInt(1)
+		if ch.State().Balances[0][sim.Idx(ch)].Sign() == 0 {
+			amt = big.NewInt(0)
+		}
+		if err := pr.Update(x, ch, sim.Transfer(0, sim.Idx(ch), amt, false), true); err != nil {
+			return fail("update-failed", "rush payment: accepted honest update failed: %v", err)
+		}
+		rushRes = pr.Settle(c.Order, false, c.Secondary)
+		if !pr.Env.Quiesce(10*time.Millisecond, sim.HangLimit) {
+			return fail("harness", "world did not become quiet after the rushed settlement")
+		}
+	}
 	agreed, f := lastAgreed(pr, ledgerID)
 	if f != nil {
 		o.Fail = f
@@ -343,7 +388,7 @@ func runCase(c Case) *h.Outcome {
 	if agreed == nil {
 		return fail("no-agreed-state", "no state was enabled by both parties")
 	}
-	if cur := pr.Ch[0].State(); cur.Equal(agreed) != nil {
+	if cur := pr.Ch[0].State(); !rush && cur.Equal(agreed) != nil {
 		return fail("current-not-agreed", "party A's current state (v%d) is not the last agreed state (v%d)", cur.Version, agreed.Version)
 	}
 	var subAgreed *channel.State
@@ -360,7 +405,12 @@ func runCase(c Case) *h.Outcome {
 			before[i] = append(before[i], L.Balance(pr.P[i].Acc.Address(), aid))
 		}
 	}
-	res := pr.Settle(c.Order, c.Concurrent, c.Secondary)
+	var res [2]sim.SettleResult
+	if rush {
+		res, before = rushRes, rushBefore
+	} else {
+		res = pr.Settle(c.Order, c.Concurrent, c.Secondary)
+	}
 	for i := 0; i < 2; i++ {
 		if res[i].Hung {
 			return fail("settle-hang", "Settle of party %d did not return within the hang limit", i)
